@@ -91,6 +91,12 @@ CHECKS = {
          "thread function finished (both release orders must be observed); join must yield the code, happen after the function finished and make plain payload writes visible (TSan); TLS values are per-thread, set_local never "
          "destroys, replace_local destroys once before returning, values left at exit are destroyed once, first-use races on a fresh key keep values apart and leak no key block; foreign threads' implicit handles are released at exit.",
     note="Tracking allocator absent in TSan builds; one documented TSan suppression (failed CAS modelled as write)."),
+ "C02": dict(cat="exploration", ref="§3 C02",
+    technique="seeded controlled scheduler over --wrap'ed pthread mutex/cond calls (exact deadlock / lost-wake-up criterion, spurious wake-up injection) for the general model + OS-scheduled stress with shadow holder counts, handshakes and TSan for both models",
+    text="General model: tens of thousands of replayable interleavings per second in which exactly one worker runs between scheduling points; shadow reader/writer counts are checked at every grant, try* may never reach a condition wait, "
+         "and a history with no enabled worker and unfinished scripts is a deadlock/lost wake-up (four hand-made mutants of prwlock-general.c are caught within the quick budget). Both models (native pthread and general, selected through "
+         "the repository's CMake option) run OS-scheduled stress up to 64 threads with perturbation, readers-share and try-while-writer handshakes, plain payload under TSan and a no-progress watchdog.",
+    note="Scheduling points are the pthread calls and the critical sections; liveness is bounded (finite rounds)."),
 }
 
 NOT_YET = {}
